@@ -73,7 +73,7 @@ PROPS = {
             {"engine": "E2", "module": "checker", "harness": "h_c12_unevaluated_never_error", "functions": ["checker::calc_compu_method_limits", "checker::check_limits_valid"],
              "bound": "11 data types x {FORM, general RAT_FUNC with arbitrary finite coefficients} x arbitrary finite declared limits", "timeout": 240},
             {"engine": "E2", "module": "checker", "harness": "h_c12_limits_valid", "functions": ["checker::check_limits_valid"],
-             "bound": "calculated range = raw range of each of the 11 data types; all finite declared limits inside / clearly outside (10x tolerance)", "timeout": 240},
+             "bound": "calculated range from 17 ranges (11 raw ranges + 6 ranges with ends of very different magnitude); all finite declared limits: inside, within half the tolerance, clearly outside (10x) on each side", "timeout": 240, "must_cover": ["upper limit slightly above the range"]},
         ],
     },
     "C15": {
